@@ -40,9 +40,11 @@ Request(name, auth, i, A, R) ==
             [] name = "editCommentAmbiguous" -> Refuse          \* a prefix shared by several comments designates none of them
             [] name = "setTitleEmpty"       -> Refuse           \* ill-formed: an empty title
             [] name = "unknownBug"          -> Refuse           \* any mutation addressing a bug that does not exist
+            [] name = "addCommentMissingFile" -> Refuse         \* a comment attaching a file the repository does not hold: refused when
+                                                                \* it is to be written, and nothing of it stays behind in what is served
 
 Names == {"addComment", "addCommentAndClose", "addCommentAndReopen", "editComment", "editCommentAmbiguous", "changeLabels", "openBug",
-          "closeBug", "setTitle", "setTitleEmpty", "unknownBug"}
+          "closeBug", "setTitle", "setTitleEmpty", "unknownBug", "addCommentMissingFile"}
 
 Next == \E name \in Names, auth \in BOOLEAN, i \in 1..3, A \in SUBSET Labels, R \in SUBSET Labels :
           /\ (name = "changeLabels") => (A \cap R = {} /\ A \cup R # {})
